@@ -57,19 +57,19 @@ type Replay struct {
 }
 
 type Runner struct {
-	M         *Model
-	R         *Rng
-	Seed      uint64
-	Tier      string
-	Prop      string
-	St        *Stats
-	ReplayDir string
-	nextDoc   int
-	maxMis    int
-	docsMade  int
-	stressEvery int // when > 0, every n-th generated document carries DocGen.stressElem
-	CoqCases  []string // model commands with the model's answers, for the vm_compute cross-check
-	pending   []pendingQuery
+	M           *Model
+	R           *Rng
+	Seed        uint64
+	Tier        string
+	Prop        string
+	St          *Stats
+	ReplayDir   string
+	nextDoc     int
+	maxMis      int
+	docsMade    int
+	stressEvery int      // when > 0, every n-th generated document carries DocGen.stressElem
+	CoqCases    []string // model commands with the model's answers, for the vm_compute cross-check
+	pending     []pendingQuery
 }
 
 func (rn *Runner) Thorough() bool { return rn.Tier == "thorough" }
